@@ -5,6 +5,7 @@ Determinism: every task carries its own run index; the worker derives everything
 """
 
 import faulthandler
+import json
 import multiprocessing
 import os
 import resource
@@ -49,7 +50,10 @@ def _run_batch(args):
         out = []
         for task in batch:
             try:
+                _t0 = time.time()
                 out.append(fn(task))
+                if os.environ.get("VERIF_TASKTIME") and time.time() - _t0 > float(os.environ["VERIF_TASKTIME"]):
+                    sys.stderr.write(f"SLOWTASK {time.time() - _t0:.1f}s {json.dumps(task, default=str)[:300]}\n")
             except MemoryError:
                 out.append({"harness_error": "MemoryError in harness", "task": task})
             except Exception:  # noqa: BLE001
